@@ -423,8 +423,8 @@ func c04Logout(r *mc.Run) {
 }
 
 func init() {
-	register("C07", &check{run: c07Run, replay: c07Replay, quick: 300 * time.Second, thor: 1500 * time.Second})
-	register("C04", &check{run: c04Run, replay: c04Replay, quick: 300 * time.Second, thor: 1500 * time.Second})
+	register("C07", &check{run: c07Run, replay: c07Replay, quick: 420 * time.Second, thor: 1500 * time.Second})
+	register("C04", &check{run: c04Run, replay: c04Replay, quick: 420 * time.Second, thor: 1500 * time.Second})
 }
 
 func c04Replay(raw json.RawMessage) ([]string, string) {
